@@ -549,6 +549,42 @@ def _grow(X, T, val):
     return out if grown else None
 
 
+def check_ref_regenerated(X, rnd, P):
+    """C08 alias clause for referent types whose item type is itself a generated class (every subscription expression makes new
+    class objects): an object built through a *separate* subscription expression and living in the holder's buffer is denoted, not copied"""
+    F = X.Float64
+
+    class Pt(X.Struct):
+        x = X.Float64
+
+    fams = [("array-of-arrays", lambda: F[:][:], [[1.0, 2.0], [3.0]], lambda h: h[1][0], lambda h, v: h[1].__setitem__(0, v)),
+            ("array-of-refs", lambda: X.Ref[Pt][:], [{"x": 1.0}, {"x": 2.0}], lambda h: h[1].x, lambda h, v: setattr(h[1], "x", v)),
+            ("array-of-strings", lambda: X.String[:], ["ab", "cde"], None, None),
+            ("array-2d-F", lambda: F[2:1, 3:0], [[1.0, 2.0, 3.0], [4.0, 5.0, 6.0]], lambda h: h[1, 2], lambda h, v: h.__setitem__((1, 2), v))]
+    for name, mk, val, get, put in fams:
+        class H(X.Struct):
+            k = X.Int64
+            r = X.Ref[mk()]
+        buf, live = make_buffer(X, rnd, "n")
+        try:
+            tgt = mk()(val, _buffer=buf)  # a second subscription expression: another class object of the same name
+            h = H(k=1, r=tgt, _buffer=buf)
+            P.evals += 1
+            ctx = dict(family=name)
+            if h.r._offset != tgt._offset or h.r._buffer is not buf:
+                P.add("C08", f"alias:regenerated-class:{name}:copied", offsets=(int(h.r._offset), int(tgt._offset)), **ctx)
+            h2 = H(k=2, _buffer=buf)
+            h2.r = tgt
+            if h2.r._offset != tgt._offset:
+                P.add("C08", f"alias:regenerated-class:{name}:copied-on-assignment", **ctx)
+            if get is not None:
+                put(tgt, 42.5)
+                if get(h.r) != 42.5 or get(h2.r) != 42.5:
+                    P.add("C08", f"alias:regenerated-class:{name}:write-not-shared", **ctx)
+        except Exception as e:  # noqa
+            P.add("C08", f"alias:regenerated-class:{name}:raised:{type(e).__name__}", problem=str(e)[:200])
+
+
 def check_refs(X, sl, rnd, P):
     """C08 on the reference-bearing struct of the slice"""
     R1, S1, S2, U = sl.R1, sl.S1, sl.S2, sl.U
@@ -882,6 +918,67 @@ def check_copy(X, cls, val, rnd, P):
                 except Exception as e:  # noqa
                     P.add("C09", f"copy-from-view:{tk}:raised:{type(e).__name__}", problem=str(e)[:200], **ctx)
 
+def check_lengths(X, rnd, P, reps):
+    """objects built from lengths only (no data): `Arr(n)`, `Arr(n, m)`, a struct whose array field is given a length -- at every
+    placement, in particular at offsets that are not multiples of 8 (after an odd-sized allocation, packed).  C03: only bytes of
+    the object's own extent (or space it newly takes) change; C06: the view reads the same shape."""
+    F, I8, I64 = X.Float64, X.Int8, X.Int64
+
+    class LenHolder(X.Struct):
+        n = X.Int64
+        v = X.Float64[:]
+        w = X.Int8[:]
+
+    cases = [(F[:], (3,)), (F[:], (0,)), (I8[:], (5,)), (I8[:], (9,)), (I64[:, :], (2, 3)), (F[:, 3], (2,)), (F[4], ()), (I8[3], ()),
+             (X.Float32[:], (3,)), (X.Int16[:], (5,))]
+    for rep in range(reps):
+        for cls, dims in cases + [(LenHolder, None)]:
+            for how in ("default", "explicit", "aligned", "packed"):
+                buf, live = make_buffer(X, rnd)
+                if rnd.random() < 0.7:
+                    n_odd = rnd.choice([1, 3, 5, 13])
+                    live.append((buf.allocate(n_odd, 1), n_odd))  # the next packed / explicit placement is not 8-aligned
+                    poison(buf)
+                before = image(buf)
+                free0 = free_set(buf)
+                kw = {"_buffer": buf}
+                try:
+                    if cls is LenHolder:
+                        a, b = rnd.choice([(5, 3), (1, 7), (0, 2)])
+                        if how == "explicit":
+                            kw["_offset"] = buf.allocate(cls._inspect_args(n=1, v=a, w=b).size, 1)
+                        elif how != "default":
+                            kw["_offset"] = how
+                        obj = cls(n=1, v=a, w=b, **kw)
+                    else:
+                        if how == "explicit":
+                            kw["_offset"] = buf.allocate(cls._inspect_args(*dims).size, 1)
+                        elif how != "default":
+                            kw["_offset"] = how
+                        obj = cls(*dims, **kw)
+                except Exception as e:  # noqa
+                    P.add("C01", f"construct-from-length:{cls.__name__}:raised:{type(e).__name__}", placement=how, problem=str(e)[:200])
+                    continue
+                P.evals += 1
+                off, size = obj._offset, int(obj._get_size() if hasattr(obj, "_get_size") else obj._size)
+                after = image(buf)
+                free1 = free_set(buf)
+                allowed = set(range(off, off + size)) | {x for x in free0 if x not in free1}
+                outside = [x for x in range(min(len(before), len(after))) if before[x] != after[x] and x not in allowed]
+                ctx = dict(cls=cls.__name__, placement=how, offset=off, size=size, dims=repr(dims))
+                if outside:
+                    P.add("C03", f"frame:construct-from-length:{type_key(X, cls)}", bytes_changed_outside=outside[:8], **ctx)
+                for (o2, n2) in live:
+                    if off < o2 + n2 and o2 < off + size:
+                        P.add("C03", f"overlap-live:from-length:{type_key(X, cls)}", neighbour=(o2, n2), **ctx)
+                try:
+                    view = cls._from_buffer(buf, off)
+                    for attr in ("_shape", "_size"):
+                        if hasattr(obj, attr) and _tl(getattr(view, attr)) != _tl(getattr(obj, attr)):
+                            P.add("C06", f"view-attr:{attr}:from-length:{type_key(X, cls)}", handle=repr(getattr(obj, attr)), view=repr(getattr(view, attr, None)), **ctx)
+                except Exception as e:  # noqa
+                    P.add("C06", f"view:from-length:{type_key(X, cls)}:raised:{type(e).__name__}", problem=str(e)[:200], **ctx)
+
 
 def run_all(tier, seed):
     X = grammar.xo()
@@ -948,7 +1045,9 @@ def run_all(tier, seed):
                 P.add("C05", "decode-value:String:capacity", decoded=repr(dv)[:60])
         except LayoutError as e:
             P.add("C05", "layout:String:capacity", problem=str(e))
+    check_lengths(X, rnd, P, 2 if tier == "quick" else 6)
     check_refs(X, sl, rnd, P)
+    check_ref_regenerated(X, rnd, P)
     check_union_families(X, sl, rnd, P)
     # contract of iter_index assumed by the array writer proofs
     from . import axioms_native
